@@ -31,6 +31,110 @@ pub open spec fn dec_%(n)s(b: Seq<u8>) -> DecRes<%(n)s> { dec_%(n)s_from(b, 0, 0
 """ % {"n": name, "k": k, "lm": lm}
 
 
+
+def roundtrip_lemmas(name, bits):
+    """Verus lemmas tying the bit-form decoder dec_<w> (|, <<, &) to the arithmetic encoder enc (%, /):
+    dec_<w>(enc(n) ++ rest) == Ok(n, |enc(n)|) for EVERY n of the type and every continuation of the stream."""
+    k = (bits + 6) // 7
+    lm = (1 << (bits % 7)) - 1
+    steps = []
+    for i in range(k):
+        c = 7 * i
+        P = 1 << c
+        dmax = 128 if i < k - 1 else lm + 1
+        steps.append("""    if i == %d {
+        assert(pow128(%d) == 0x%x) by (compute_only);
+        assert(acc < 0x%x%s && d < %d ==> (acc | (d << %d%s)) == add(acc, mul(d, 0x%x%s))) by (bit_vector);
+    }""" % (i, i, P, P, name, dmax, c, name, P, name))
+    return """
+// one accumulation step of the bit-form decoder is addition of d * 128^i (no carries: acc < 128^i), and never overflows
+proof fn lemma_step_%(n)s(acc: %(n)s, d: %(n)s, i: int)
+    requires 0 <= i < %(k)d, (acc as nat) < pow128(i as nat), i < %(k)d - 1 ==> d < 128, i == %(k)d - 1 ==> d <= %(lm)d,
+    ensures (acc | (d << ((7 * i) as %(n)s))) as nat == acc as nat + (d as nat) * pow128(i as nat),
+            acc as nat + (d as nat) * pow128(i as nat) <= %(n)s::MAX
+{
+%(steps)s
+}
+
+proof fn lemma_byte_masks_%(n)s(v: u8)
+    ensures v < 128 ==> (v & 0x80) == 0 && ((v & 0x7F) as %(n)s) == v as %(n)s,
+            v >= 128 ==> (v & 0x80) != 0 && ((v & 0x7F) as %(n)s) == (v - 128) as %(n)s,
+{
+    assert(v < 128 ==> (v & 0x80) == 0 && (v & 0x7F) == v) by (bit_vector);
+    assert(v >= 128 ==> (v & 0x80) != 0 && (v & 0x7F) == sub(v, 128)) by (bit_vector);
+}
+
+// generalised induction: decoding from byte i with the low 7*i bits of n already accumulated
+proof fn lemma_dec_enc_from_%(n)s(n: nat, b: Seq<u8>, i: int, m: nat, acc: %(n)s)
+    requires
+        n <= %(n)s::MAX, 0 <= i < %(k)d,
+        m == n / pow128(i as nat), acc as nat == n %% pow128(i as nat),
+        i + enc(m).len() <= b.len(), b.subrange(i, i + enc(m).len()) =~= enc(m),
+    ensures dec_%(n)s_from(b, i, acc) == DecRes::Ok(n as %(n)s, i + enc(m).len()),
+    decreases %(k)d - i
+{
+    let p = pow128(i as nat);
+    lemma_pow128_pos(i as nat);
+    lemma_enc_len_pos(m);
+    let v = b[i];
+    assert(v == b.subrange(i, i + enc(m).len())[0]);
+    assert(v == enc(m)[0]);
+    lemma_byte_masks_%(n)s(v);
+    lemma_fundamental_div_mod(n as int, p as int);
+    assert((acc as nat) < p) by { lemma_mod_bound(n as int, p as int); }
+    if i == %(k)d - 1 {
+        assert(pow128(%(k1)d) == 0x%(plast)x) by (compute_only);
+        assert(m <= %(lm)d) by (nonlinear_arith) requires m == n / p, p == 0x%(plast)x, n <= %(n)s::MAX;
+    }
+    if m < 128 {
+        assert(enc(m) =~= seq![m as u8]);
+        let d = (v & 0x7F) as %(n)s;
+        assert(d as nat == m);
+        lemma_step_%(n)s(acc, d, i);
+        assert(n == m * p + n %% p) by (nonlinear_arith) requires n == p * (n / p) + n %% p, m == n / p;
+        assert((d as nat) * p == m * p);
+    } else {
+        let t = enc(m / 128);
+        let h = ((m %% 128) + 128) as u8;
+        assert(enc(m) =~= seq![h] + t);
+        assert(v == h);
+        assert(i < %(k)d - 1);
+        let d = (v & 0x7F) as %(n)s;
+        assert(d as nat == m %% 128);
+        lemma_step_%(n)s(acc, d, i);
+        let acc2 = (acc | (d << ((7 * i) as %(n)s)));
+        assert(pow128((i + 1) as nat) == 128 * p);
+        lemma_breakdown(n as int, p as int, 128);
+        lemma_div_denominator(n as int, p as int, 128);
+        assert(p * 128 == 128 * p) by (nonlinear_arith);
+        assert(acc2 as nat == n %% pow128((i + 1) as nat)) by (nonlinear_arith)
+            requires acc2 as nat == acc as nat + (m %% 128) * p, acc as nat == n %% p, m == n / p,
+                     (n as int) %% ((p * 128) as int) == (p as int) * (((n as int) / (p as int)) %% 128) + (n as int) %% (p as int),
+                     pow128((i + 1) as nat) == 128 * p, p * 128 == 128 * p;
+        assert(m / 128 == n / pow128((i + 1) as nat));
+        assert(b.subrange(i + 1, i + 1 + t.len()) =~= t) by {
+            assert forall|j: int| 0 <= j < t.len() implies b.subrange(i + 1, i + 1 + t.len())[j] == t[j] by {
+                assert(b.subrange(i, i + enc(m).len())[j + 1] == enc(m)[j + 1]);
+            }
+        }
+        lemma_dec_enc_from_%(n)s(n, b, i + 1, m / 128, acc2);
+    }
+}
+
+// THE ROUND TRIP: the wire-format decoder reads back every value of the type from its encoding followed by anything,
+// consuming exactly the encoding.
+pub proof fn lemma_varint_roundtrip_%(n)s(n: %(n)s, rest: Seq<u8>)
+    ensures dec_%(n)s(enc(n as nat) + rest) == DecRes::Ok(n, enc(n as nat).len() as int),   // @obl:C01.L.varint.roundtrip_%(n)s
+{
+    let b = enc(n as nat) + rest;
+    assert(pow128(0) == 1) by (compute_only);
+    assert((n as nat) / 1 == n as nat && (n as nat) %% 1 == 0);
+    assert(b.subrange(0, enc(n as nat).len() as int) =~= enc(n as nat));
+    lemma_dec_enc_from_%(n)s(n as nat, b, 0, n as nat, 0);
+}
+""" % dict(n=name, k=k, k1=k - 1, lm=lm, steps="\n".join(steps), plast=1 << (7 * (k - 1)))
+
+
 def fn_item(name, bits):
     k = (bits + 6) // 7
     return dict(
@@ -52,7 +156,8 @@ def fn_item(name, bits):
 
 UNIT = dict(
     name="devarint",
-    uses=["use core::marker::PhantomData;"],
+    uses=["use core::marker::PhantomData;", "use vstd::arithmetic::div_mod::*;"],
+    prelude=["varint.rs"],
     items=[
         dict(kind="raw", name="<spec>", obls=["spec:devarint"], text="""
 pub enum Error { DeserializeUnexpectedEnd, DeserializeBadVarint, Other }
@@ -83,6 +188,9 @@ pub open spec fn matches_dec<T>(r: Result<T>, orig: Seq<u8>, now: Seq<u8>, want:
 """ + "".join(spec_for(n, b) for n, b in WIDTHS) + "".join("""
 pub open spec fn varint_max_spec_%(n)s() -> bool { true }
 """ % {"n": n} for n, b in WIDTHS)),
+        # the bit-form decoder is the inverse of the arithmetic encoder `enc` (specs/varint.rs) on every value of the type
+        dict(kind="raw", name="<roundtrip-lemmas>", obls=["C01.L.varint.roundtrip_" + n for n, b in WIDTHS],
+             text="".join(roundtrip_lemmas(n, b) for n, b in WIDTHS)),
         dict(kind="fn", file="postcard/src/varint.rs", name="varint_max", qual="postcard::varint::varint_max",
              sig="""    requires vstd::layout::size_of::<T>() <= 0x1000_0000
     ensures r == (vstd::layout::size_of::<T>() * 8 + 6) / 7""", obls=["C12.V.varint_max"]),
